@@ -1,26 +1,601 @@
 package main
 
 import (
+	"encoding/json"
+	"flag"
 	"fmt"
 	"os"
-
-	"golang.org/x/tools/go/packages"
-	"golang.org/x/tools/go/ssa"
-	"golang.org/x/tools/go/ssa/ssautil"
+	"path/filepath"
+	"sort"
+	"strconv"
+	"strings"
+	"sync"
+	"time"
 )
 
-func main() {
-	cfg := &packages.Config{Mode: packages.LoadAllSyntax, Dir: "/repo", BuildFlags: []string{"-tags=verif"}}
-	pkgs, err := packages.Load(cfg, "./pkg/...", "./internal/...")
+const verifDir = "/verif"
+
+type SiteResult struct {
+	Obl    *Obl
+	Site   *Site
+	Res    SolveResult
+	Status string
+}
+
+type OblResult struct {
+	Obl        *Obl
+	Discharged bool
+	Sites      []*SiteResult
+	Secs       float64
+	Solver     string
+}
+
+type KnownFinding struct {
+	Property   string `json:"property"`
+	Obligation string `json:"obligation"`
+	Site       string `json:"site"` // "*" = every site of the obligation is not accepted; sites must be named
+	What       string `json:"what"`
+}
+
+type FixedEntry struct {
+	Property string `json:"property"`
+	Commit   string `json:"commit"`
+	What     string `json:"what"`
+}
+
+type KnownFile struct {
+	Findings []KnownFinding `json:"findings"`
+	Fixed    []string       `json:"fixed"`
+}
+
+type LockFile struct {
+	Obligations map[string][]string `json:"obligations"` // property -> names
+}
+
+func loadJSON(path string, v interface{}) error {
+	b, err := os.ReadFile(path)
 	if err != nil {
-		panic(err)
+		return err
 	}
-	prog, _ := ssautil.AllPackages(pkgs, ssa.InstantiateGenerics)
-	prog.Build()
-	for fn := range ssautil.AllFunctions(prog) {
-		if fn.Pkg != nil && fn.Pkg.Pkg.Path() == "github.com/pojntfx/stfs/pkg/operations" && fn.Name() == os.Args[1] {
-			fn.WriteTo(os.Stdout)
+	return json.Unmarshal(b, v)
+}
+
+func main() {
+	if len(os.Args) < 2 {
+		fmt.Fprintln(os.Stderr, "usage: stfsvc check <Cnn> [--tier quick|thorough] | vc <func-substring> | dump <func-substring> | lock")
+		os.Exit(2)
+	}
+	defer cleanupScratch()
+	switch os.Args[1] {
+	case "check":
+		os.Exit(cmdCheck(os.Args[2:]))
+	case "vc":
+		os.Exit(cmdVC(os.Args[2:]))
+	case "dump":
+		os.Exit(cmdDump(os.Args[2:]))
+	case "lock":
+		os.Exit(cmdLock(os.Args[2:]))
+	default:
+		fmt.Fprintln(os.Stderr, "unknown command", os.Args[1])
+		os.Exit(2)
+	}
+}
+
+func repoDir() string {
+	if d := os.Getenv("STFS_REPO"); d != "" {
+		return d
+	}
+	return "/repo"
+}
+
+func cmdDump(args []string) int {
+	e, err := LoadEngine(repoDir(), filepath.Join(verifDir, "specs"))
+	if err != nil {
+		fmt.Fprintln(os.Stderr, err)
+		return 2
+	}
+	var keys []string
+	for k := range e.funcs {
+		keys = append(keys, k)
+	}
+	sort.Strings(keys)
+	for _, k := range keys {
+		if len(args) == 0 {
+			fmt.Println(k)
+			continue
+		}
+		if strings.Contains(k, args[0]) {
+			e.funcs[k].WriteTo(os.Stdout)
 		}
 	}
-	fmt.Println("ok")
+	return 0
+}
+
+// solveAll discharges the obligations of the given translators for property prop ("" = all).
+func solveAll(trs []*Tr, prop string, timeoutS int, confirm bool) ([]*OblResult, []string) {
+	var results []*OblResult
+	var problems []string
+	var jobs []job
+	var mu sync.Mutex
+	for _, tr := range trs {
+		for _, p := range tr.errs {
+			problems = append(problems, tr.topShort+": "+p)
+		}
+		for _, name := range tr.oblOrder {
+			o := tr.obls[name]
+			if prop != "" && o.Prop != prop {
+				continue
+			}
+			or := &OblResult{Obl: o}
+			results = append(results, or)
+			var goals []string
+			for _, s := range o.Sites {
+				if s.Goal != "false" {
+					goals = append(goals, s.Goal)
+				}
+			}
+			if len(goals) == 0 {
+				or.Discharged = true
+				or.Solver = "trivial"
+				continue
+			}
+			tr, o := tr, o
+			q := tr.script(sOr(goals...), false)
+			jobs = append(jobs, job{query: q, timeout: timeoutS, order: solverOrder(q), done: func(r SolveResult) {
+				mu.Lock()
+				or.Secs += r.Secs
+				or.Solver = r.Solver
+				mu.Unlock()
+				if r.Status == "unsat" {
+					if confirm {
+						// second solver must not disagree
+						for _, s2 := range solverOrder(q) {
+							if s2 == r.Solver {
+								continue
+							}
+							r2 := runSolver(s2, q, timeoutS)
+							if r2.Status == "sat" {
+								mu.Lock()
+								problems = append(problems, fmt.Sprintf("solver disagreement on %s: %s unsat, %s sat", o.Name(), r.Solver, s2))
+								mu.Unlock()
+							}
+							if r2.Status == "unsat" {
+								mu.Lock()
+								or.Solver = r.Solver + "+" + s2
+								mu.Unlock()
+							}
+							break
+						}
+					}
+					mu.Lock()
+					or.Discharged = true
+					mu.Unlock()
+					return
+				}
+				// split per site
+				var wg sync.WaitGroup
+				srs := make([]*SiteResult, len(o.Sites))
+				sem := make(chan struct{}, 8)
+				for i, s := range o.Sites {
+					srs[i] = &SiteResult{Obl: o, Site: s}
+					if s.Goal == "false" {
+						srs[i].Status = "unsat"
+						continue
+					}
+					wg.Add(1)
+					go func(i int, s *Site) {
+						defer wg.Done()
+						sem <- struct{}{}
+						defer func() { <-sem }()
+						qs := tr.script(s.Goal, true)
+						rr := solve(qs, timeoutS, solverOrder(qs))
+						rr.Query = qs
+						srs[i].Res = rr
+						srs[i].Status = rr.Status
+					}(i, s)
+				}
+				wg.Wait()
+				mu.Lock()
+				or.Sites = srs
+				all := true
+				for _, sr := range srs {
+					or.Secs += sr.Res.Secs
+					if sr.Status != "unsat" {
+						all = false
+					}
+				}
+				or.Discharged = all
+				mu.Unlock()
+			}})
+		}
+	}
+	runJobs(jobs, 16)
+	return results, problems
+}
+
+func cmdVC(args []string) int {
+	fs := flag.NewFlagSet("vc", flag.ExitOnError)
+	smtDir := fs.String("smt", "", "write queries to this directory")
+	prop := fs.String("prop", "", "only this property")
+	timeout := fs.Int("timeout", 10, "per-query timeout (s)")
+	verbose := fs.Bool("v", false, "verbose")
+	fs.Parse(args)
+	e, err := LoadEngine(repoDir(), filepath.Join(verifDir, "specs"))
+	if err != nil {
+		fmt.Fprintln(os.Stderr, err)
+		return 2
+	}
+	pat := ""
+	if fs.NArg() > 0 {
+		pat = fs.Arg(0)
+	}
+	fns, cs, missing := e.functionsFor("")
+	for _, m := range missing {
+		fmt.Println("BROKEN-CHECK contract target missing:", m)
+	}
+	var trs []*Tr
+	for i, fn := range fns {
+		if pat != "" && !strings.Contains(fn.String(), pat) {
+			continue
+		}
+		tr := e.Verify(fn, cs[i])
+		trs = append(trs, tr)
+		if *smtDir != "" {
+			os.MkdirAll(*smtDir, 0o755)
+			for _, n := range tr.oblOrder {
+				o := tr.obls[n]
+				for j, s := range o.Sites {
+					os.WriteFile(filepath.Join(*smtDir, fmt.Sprintf("%s.%d.smt2", strings.ReplaceAll(n, "/", "_"), j)), []byte(tr.script(s.Goal, true)), 0o644)
+				}
+			}
+		}
+	}
+	results, problems := solveAll(trs, *prop, *timeout, false)
+	for _, p := range problems {
+		fmt.Println("PROBLEM:", p)
+	}
+	nd := 0
+	for _, r := range results {
+		st := "FAILED"
+		if r.Discharged {
+			st = "ok"
+			nd++
+		}
+		fmt.Printf("%-7s %-70s %d sites %.2fs %s\n", st, r.Obl.Name(), len(r.Obl.Sites), r.Secs, r.Solver)
+		if !r.Discharged || *verbose {
+			for _, sr := range r.Sites {
+				if sr.Status != "unsat" {
+					fmt.Printf("        %-8s %s  %s\n", sr.Status, sr.Site.Sig, sr.Site.What)
+				}
+			}
+		}
+	}
+	for _, tr := range trs {
+		for _, c := range tr.covers {
+			r := solve(tr.script(c.Goal, false), *timeout, []string{"z3-new", "cvc5"})
+			if r.Status != "sat" {
+				fmt.Printf("VACUOUS? %s: cover %q is %s\n", tr.topShort, c.Sig, r.Status)
+			}
+		}
+		if *verbose {
+			var us []string
+			for u := range tr.used {
+				us = append(us, u)
+			}
+			sort.Strings(us)
+			for _, u := range us {
+				fmt.Println("   note:", u)
+			}
+		}
+	}
+	fmt.Printf("%d/%d obligations discharged\n", nd, len(results))
+	return 0
+}
+
+type checkRun struct {
+	prop     string
+	tier     string
+	results  []*OblResult
+	problems []string
+	trs      []*Tr
+	missing  []string
+	engine   *Engine
+}
+
+func runCheck(prop, tier string) (*checkRun, error) {
+	e, err := LoadEngine(repoDir(), filepath.Join(verifDir, "specs"))
+	if err != nil {
+		return nil, err
+	}
+	fns, cs, missing := e.functionsFor(prop)
+	var trs []*Tr
+	for i, fn := range fns {
+		trs = append(trs, e.Verify(fn, cs[i]))
+	}
+	var immProblems []string
+	for _, b := range e.checkImmutables() {
+		immProblems = append(immProblems, "immutable-field assumption violated: "+b)
+	}
+	timeout := 10
+	if tier == "thorough" {
+		timeout = 60
+	}
+	results, problems := solveAll(trs, prop, timeout, tier == "thorough")
+	problems = append(problems, immProblems...)
+	// vacuity covers
+	for _, tr := range trs {
+		for _, c := range tr.covers {
+			r := solve(tr.script(c.Goal, false), timeout, []string{"z3-new", "cvc5"})
+			if r.Status == "unsat" {
+				problems = append(problems, fmt.Sprintf("vacuous contract: no return of %s is reachable under its preconditions", tr.topShort))
+			}
+		}
+	}
+	return &checkRun{prop: prop, tier: tier, results: results, problems: problems, trs: trs, missing: missing, engine: e}, nil
+}
+
+func cmdLock(args []string) int {
+	lock := LockFile{Obligations: map[string][]string{}}
+	props := args
+	if len(props) == 0 {
+		fmt.Fprintln(os.Stderr, "usage: stfsvc lock C10 C15 ...")
+		return 2
+	}
+	old := LockFile{Obligations: map[string][]string{}}
+	loadJSON(filepath.Join(verifDir, "obligations.lock"), &old)
+	for k, v := range old.Obligations {
+		lock.Obligations[k] = v
+	}
+	for _, p := range props {
+		cr, err := runCheck(p, "quick")
+		if err != nil {
+			fmt.Fprintln(os.Stderr, err)
+			return 2
+		}
+		var names []string
+		for _, r := range cr.results {
+			names = append(names, r.Obl.Name())
+		}
+		sort.Strings(names)
+		lock.Obligations[p] = names
+		fmt.Printf("%s: %d obligations locked\n", p, len(names))
+	}
+	b, _ := json.MarshalIndent(lock, "", " ")
+	os.WriteFile(filepath.Join(verifDir, "obligations.lock"), append(b, '\n'), 0o644)
+	return 0
+}
+
+func cmdCheck(args []string) int {
+	if len(args) < 1 {
+		fmt.Fprintln(os.Stderr, "usage: stfsvc check <Cnn> [--tier quick|thorough]")
+		return 2
+	}
+	prop := args[0]
+	fs := flag.NewFlagSet("check", flag.ExitOnError)
+	tier := fs.String("tier", "quick", "quick|thorough")
+	fs.Parse(args[1:])
+	if t := os.Getenv("VERIF_TIER"); t != "" && *tier == "quick" && (t == "quick" || t == "thorough") {
+		*tier = t
+	}
+	seed := 0
+	if s := os.Getenv("VERIF_SEED"); s != "" {
+		seed, _ = strconv.Atoi(s)
+	}
+	start := time.Now()
+	cr, err := runCheck(prop, *tier)
+	if err != nil {
+		fmt.Println("BROKEN-CHECK", err)
+		return 2
+	}
+	return report(cr, seed, start)
+}
+
+func report(cr *checkRun, seed int, start time.Time) int {
+	prop := cr.prop
+	exit := 0
+	var known KnownFile
+	loadJSON(filepath.Join(verifDir, "known_findings.json"), &known)
+	var lock LockFile
+	loadJSON(filepath.Join(verifDir, "obligations.lock"), &lock)
+	kf := map[string]KnownFinding{}
+	for _, k := range known.Findings {
+		if k.Property == prop {
+			kf[k.Obligation+"\x00"+k.Site] = k
+		}
+	}
+	for _, m := range cr.missing {
+		fmt.Printf("BROKEN-CHECK contract target missing in /repo: %s\n", m)
+		exit = 2
+	}
+	for _, p := range cr.problems {
+		fmt.Printf("BROKEN-CHECK %s\n", p)
+		exit = 2
+	}
+	got := map[string]*OblResult{}
+	for _, r := range cr.results {
+		got[r.Obl.Name()] = r
+	}
+	for _, n := range lock.Obligations[prop] {
+		if got[n] == nil {
+			fmt.Printf("BROKEN-CHECK obligation %s is locked but was not generated (contract target or call site missing)\n", n)
+			exit = 2
+		}
+	}
+	if len(cr.results) == 0 {
+		fmt.Printf("BROKEN-CHECK no obligations generated for %s\n", prop)
+		exit = 2
+	}
+	os.MkdirAll(filepath.Join(verifDir, "out", "replay"), 0o755)
+	claimed, discharged := 0, 0
+	violations := 0
+	var kfObls []map[string]interface{}
+	var samples []map[string]interface{}
+	var perObl []map[string]interface{}
+	solverSecs := 0.0
+	bySolver := map[string]int{}
+	seenKF := map[string]bool{}
+	for _, r := range cr.results {
+		solverSecs += r.Secs
+		name := r.Obl.Name()
+		hasKF := false
+		var failing []*SiteResult
+		for _, sr := range r.Sites {
+			if sr.Status != "unsat" {
+				failing = append(failing, sr)
+			}
+		}
+		var newFail []*SiteResult
+		var kfSites []string
+		for _, sr := range failing {
+			if k, ok := kf[name+"\x00"+sr.Site.Sig]; ok {
+				hasKF = true
+				seenKF[name+"\x00"+sr.Site.Sig] = true
+				kfSites = append(kfSites, sr.Site.Sig)
+				fmt.Printf("KNOWN-FINDING: property=%s %s @ %s: %s\n", prop, name, sr.Site.Sig, k.What)
+			} else {
+				newFail = append(newFail, sr)
+			}
+		}
+		// does the known-findings file list this obligation at all (sites that pass now)?
+		for key := range kf {
+			if strings.HasPrefix(key, name+"\x00") {
+				hasKF = true
+			}
+		}
+		if hasKF {
+			kfObls = append(kfObls, map[string]interface{}{"obligation": name, "failing_sites": kfSites})
+		} else {
+			claimed++
+			if r.Discharged {
+				discharged++
+				bySolver[r.Solver]++
+			}
+		}
+		for _, sr := range newFail {
+			violations++
+			exit1 := writeReplay(cr, r, sr)
+			fmt.Println(exit1)
+			if exit == 0 {
+				exit = 1
+			}
+		}
+		if len(samples) < 6 && r.Discharged {
+			samples = append(samples, map[string]interface{}{"obligation": name, "kind": r.Obl.Kind, "clause": r.Obl.Src, "sites": len(r.Obl.Sites), "solver": r.Solver, "secs": round3(r.Secs)})
+		}
+		perObl = append(perObl, map[string]interface{}{"name": name, "kind": r.Obl.Kind, "sites": len(r.Obl.Sites), "discharged": r.Discharged, "solver": r.Solver, "secs": round3(r.Secs)})
+	}
+	for key, k := range kf {
+		if !seenKF[key] {
+			fmt.Printf("INFO: known finding no longer fails: %s @ %s\n", k.Obligation, k.Site)
+		}
+	}
+	// evidence
+	assume := map[string]bool{}
+	var fnames []string
+	for _, tr := range cr.trs {
+		fnames = append(fnames, tr.top.String())
+		for u := range tr.used {
+			assume[u] = true
+		}
+	}
+	var assumptions []string
+	for a := range assume {
+		assumptions = append(assumptions, a)
+	}
+	sort.Strings(assumptions)
+	assumptions = append([]string{
+		"integers are mathematical (no overflow) unless a function is marked overflow",
+		"pointer receivers are non-nil; parameters pre-exist (cannot alias allocations made by the function)",
+		"external callees without a spec do not touch ghost state; with scalar-only arguments they do not touch the heap",
+		"callee contracts are assumed at call sites (modular); each is verified against its own body when it is an in-module function, assumed when it is an extern/iface/spec",
+	}, assumptions...)
+	trusted := []string{"go/ssa (x/tools v0.29.0) as the semantics of the Go source", "stfsvc VC generator", "z3 4.8.12 / z3 5.1.0 / cvc5 1.0.x", "assumed specs in /verif/specs/*.spec"}
+	ev := map[string]interface{}{
+		"property_id": prop,
+		"tier":        cr.tier,
+		"seed":        seed,
+		"level":       "proof",
+		"coverage": map[string]interface{}{
+			"obligations":               claimed,
+			"discharged":                discharged,
+			"checker_cmd":               "/verif/bin/stfsvc check " + prop + " --tier " + cr.tier,
+			"trusted_base":              trusted,
+			"samples":                   samples,
+			"functions_under_contract":  fnames,
+			"per_obligation":            perObl,
+			"known_finding_obligations": kfObls,
+			"discharged_by_solver":      bySolver,
+			"solver_seconds":            round3(solverSecs),
+			"contract_files":            cr.engine.db.Files,
+			"explanation":               "obligations = contract clauses (post/pre/invariant/safety) of the functions listed, generated from go/ssa of /repo's working tree; each is one or more SMT queries that must be unsat",
+		},
+		"assumptions": assumptions,
+		"wall_s":      round3(time.Since(start).Seconds()),
+		"violations":  violations,
+	}
+	os.MkdirAll(filepath.Join(verifDir, "evidence"), 0o755)
+	b, _ := json.MarshalIndent(ev, "", " ")
+	os.WriteFile(filepath.Join(verifDir, "evidence", prop+".json"), append(b, '\n'), 0o644)
+	fmt.Printf("%s: %d/%d claimed obligations discharged, %d known-finding obligations, %d violations, %.1fs\n", prop, discharged, claimed, len(kfObls), violations, time.Since(start).Seconds())
+	if exit == 0 && claimed != discharged {
+		// cannot happen without a violation line, but never report success on an undischarged claim
+		fmt.Println("BROKEN-CHECK claimed obligations undischarged without a violation record")
+		exit = 2
+	}
+	return exit
+}
+
+func round3(f float64) float64 { return float64(int(f*1000+0.5)) / 1000 }
+
+func writeReplay(cr *checkRun, r *OblResult, sr *SiteResult) string {
+	name := r.Obl.Name()
+	file := filepath.Join(verifDir, "out", "replay", sanitizeFile(name+"__"+sr.Site.Sig)+".json")
+	rep := map[string]interface{}{
+		"property":      cr.prop,
+		"obligation":    name,
+		"kind":          r.Obl.Kind,
+		"clause":        r.Obl.Src,
+		"site":          sr.Site.Sig,
+		"what":          sr.Site.What,
+		"solver":        sr.Res.Solver,
+		"solver_status": sr.Status,
+		"solver_output": truncate(sr.Res.Output, 20000),
+		"function":      r.Obl.tr.top.String(),
+	}
+	suffix := " no-failing-input-found"
+	if sr.Status == "sat" {
+		ok, detail := tryReplay(cr, r, sr, rep)
+		rep["replay"] = detail
+		if ok {
+			suffix = ""
+		}
+	} else {
+		rep["replay"] = "solver returned " + sr.Status + " (no model); the obligation is expected to discharge and does not"
+	}
+	b, _ := json.MarshalIndent(rep, "", " ")
+	os.WriteFile(file, append(b, '\n'), 0o644)
+	return fmt.Sprintf("VIOLATION property=%s replay=%s obligation=%s site=%q%s", cr.prop, file, name, sr.Site.Sig, suffix)
+}
+
+func sanitizeFile(s string) string {
+	var sb strings.Builder
+	for _, r := range s {
+		if r == '.' || r == '-' || r == '_' || (r >= '0' && r <= '9') || (r >= 'a' && r <= 'z') || (r >= 'A' && r <= 'Z') {
+			sb.WriteRune(r)
+		} else {
+			sb.WriteByte('_')
+		}
+	}
+	out := sb.String()
+	if len(out) > 150 {
+		out = out[:150]
+	}
+	return out
+}
+
+func truncate(s string, n int) string {
+	if len(s) > n {
+		return s[:n] + "...[truncated]"
+	}
+	return s
 }
